@@ -1721,7 +1721,9 @@ class D2Ties(D2Space):
                     cmds.append("rep rect 2 2 %s %s" % (U(7.5), U(8.5)))
                 elif kd == "polygon.general":
                     cmds.append("poly 2 0 " + " ".join(PT(q) for q in [(gx, gy), (gx + 6, gy + 1), (gx + 2.5, gy + 7)]))
-                    cmds.append("rep ex 3 %s %s %s" % (PT((1.5, -2.5)), PT((-3.5, 0.5)), PT((4.5, 4.5))))
+                    # explicit lists are written as first offset + differences: keep one sign per axis so that rounding each offset
+                    # and rounding first-plus-integer-differences agree (half away from zero is not translation invariant across 0)
+                    cmds.append("rep ex 3 %s %s %s" % (PT((1.5, 2.5)), PT((3.5, 0.5)), PT((4.5, 4.5))))
                 elif kd == "flexpath":
                     pts = [(gx, gy), (gx + 5.5, gy), (gx + 5.5, gy + 4.5), (gx + 9, gy + 4.5)]
                     cmds.append("fpath 1 1 %d %s 1 3 0 %s 0 ext %s %s" % (len(pts), " ".join(PT(q) for q in pts), U(2.5), U(1.5), U(0.5)))
@@ -1735,7 +1737,7 @@ class D2Ties(D2Space):
                     cmds.append("rep reg 2 2 %s %s %s %s" % (U(2.5), U(-0.5), U(-1.5), U(3.5)))
                 elif kd == "reference":
                     cmds.append("ref B %s 0 1 0" % PT((gx, gy)))
-                    cmds.append("rep exy 2 %s %s" % (U(-1.5), U(2.5)))
+                    cmds.append("rep exy 2 %s %s" % (U(-1.5), U(-4.5)))
             cmds += ["cell B", "poly 0 0 %s" % " ".join(PT(q) for q in [(0, 0), (4, 0), (4, 2)])]
             for lvl, fl in ((0, 0x00), (6, 0x3B), (6, 0x30 | 0x40)):
                 out.append({"cmds": cmds, "level": lvl, "flags": fl, "tol": 0, "hints": hints,
